@@ -86,10 +86,10 @@ Proof.
   - destruct (locked b || has t (pubs b)); simpl; split; assumption.
   - destruct (locked b); simpl; [split; assumption|]. apply ids_ok_append1; assumption.
   - destruct (lookup t (pubs b)) as [y0|]; [destruct (y =? y0)|]; simpl; split; assumption.
-  - destruct (locked b || has 999 (declared b)); simpl; [split; assumption|].
+  - destruct (locked b || has 999 (declared b) || initialised b); simpl; [split; assumption|].
     unfold ids_ok. simpl. rewrite map_app, map_map. simpl.
     exact (seq_ids_fresh (map fst (subs b)) (nsub b) (pubs b) Hn Hlt).
-  - destruct (locked b || any_dup names (declared b) || negb (Nat.eqb (length names) (length vals))); simpl; [split; assumption|].
+  - destruct (locked b || any_dup names (declared b) || negb (Nat.eqb (length names) (length vals)) || initialised b); simpl; [split; assumption|].
     apply ids_ok_append1; assumption.
   - split; assumption.
   - destruct (cparams b) as [ps|]; [destruct (has n ps)|]; simpl; split; assumption.
